@@ -11,8 +11,8 @@ import OpusModel.Gen.StructFields
     src/opus_encoder.c:202-297    opus_encoder_init                → `encInit`
     silk/enc_API.c:74-139         silk_InitEncoder, silk_QueryEncoder (what init stores in silk_mode)
     celt/celt_encoder.c:171-222   opus_custom_encoder_init_arch, celt_encoder_init
-    src/opus_encoder.c:3063-3096  OPUS_RESET_STATE                 → `encReset`
-    src/opus_encoder.c:2637-3112  OPUS_SET_* requests              → `encSet`
+    src/opus_encoder.c:3077-3104  OPUS_RESET_STATE                 → `encReset`
+    src/opus_encoder.c:2651-3126  OPUS_SET_* requests (line numbers in `setAccept`/`setApply` are those of the pinned tree before the DTX fixes: add 14)              → `encSet`
     src/opus_encoder.c:1120-2500  opus_encode_native / opus_encode_frame_native, as a FOOTPRINT:
                                   which members each phase reads and writes  → `encodeStep`
     src/opus_decoder.c:66-93, 130-174, 1029-1043   OpusDecoder, init, reset  → `Dec`, `decInit`, `decReset`
@@ -200,7 +200,7 @@ def encInit (fs channels application arch silkOff celtOff : Int) : Enc :=
 
 /-! ## OPUS_RESET_STATE -/
 
-/-- OPUS_RESET_STATE of the encoder (opus_encoder.c:3063-3096): tonality_analysis_reset, OPUS_CLEAR
+/-- OPUS_RESET_STATE of the encoder (opus_encoder.c:3077-3104): tonality_analysis_reset, OPUS_CLEAR
     from `stream_channels` to the end of the struct, CELT reset (from `rng`: its configuration
     survives), silk_InitEncoder into a dummy control struct (so `silk_mode` survives), the seven
     re-derived members — and the repair: the inter-frame members that live outside the cleared
@@ -233,7 +233,7 @@ def encResetUnrepaired (s : Enc) : Enc :=
 
 /-- The members that hold what the application configured (they are written by the OPUS_SET_*
     requests and by nothing in `encReset`).  `forceChannels` is included although the encoder itself
-    may overwrite it (opus_encoder.c:1676): the application reads it back through its getter. -/
+    may overwrite it (opus_encoder.c:1687): the application reads it back through its getter. -/
 structure Settings where
   application : Int
   forceChannels : Int
@@ -300,8 +300,8 @@ def encFresh (fs channels arch silkOff celtOff : Int) (c : Settings) : Enc :=
     `stream_channels, start, end, bitrate, vbr, constrained_vbr, lsb_depth` at :1598, :2157-2160,
     :2294-2336): `bitrateBps`, those `silkMode` and `celt` members.
     Gated (read only under a condition on other members):
-      `toMono`        read at :1483 only when `prev_channels == 2`;
-      `useDTX`        read by OPUS_GET_IN_DTX (:3133) only when `prev_mode` is SILK or hybrid; inside a call it
+      `toMono`        read at :1494 only when `prev_channels == 2`;
+      `useDTX`        read by OPUS_GET_IN_DTX (:3136) only when `prev_mode` is SILK or hybrid; inside a call it
                       is compared with the new choice (:1389-1399) only to clear `nb_no_activity_ms_Q1` and
                       SILK's noSpeechCounter, which does nothing while both are still zero (no frame
                       completed since the reset, SILK state fresh), and is then overwritten;
@@ -519,8 +519,8 @@ structure Out where
 inductive Path
   | entryError     -- :1157-1168: frame_size/max_data_bytes rejected; only rangeFinal := 0
   | lowBudget      -- :1267-1333: "PLC frame"; analysis / voice_ratio / width_mem / bitrate_bps updated
-  | silkNoOutput   -- single-frame packet whose SILK frame produced no bytes (:2119-2128): decisions and SILK ran,
-                   -- `prev_channels` is updated, the other end-of-frame updates (:2419-2426) are not
+  | silkNoOutput   -- single-frame packet whose SILK frame produced no bytes (:2130-2139): decisions and SILK ran,
+                   -- `prev_channels` is updated, the other end-of-frame updates (:2419-2428) are not
   | full           -- at least one (sub)frame reached :2405-2412
   deriving DecidableEq, Repr
 
@@ -538,7 +538,7 @@ structure PhaseA where
     (`silkRan = false`: SILK state and the SILK outputs in `silk_mode` keep their values). -/
 structure PhaseB where
   streamChannels : Int
-  forceChannels : Int            -- :1676 may force mono
+  forceChannels : Int            -- :1687 may force mono
   mode : Int
   bandwidth : Int
   autoBandwidth : Int
@@ -588,8 +588,8 @@ def encodeStep (O : Oracles) (s : Enc) (x : Inp) : Enc × Out :=
   | p =>
     let a := O.phaseA v x
     let b := O.phaseB v a x
-    -- silk_mode: the members assigned before / by silk_Encode when SILK runs; always useDTX (:1388),
-    -- toMono (:1487-1490), LBRR_coded (:1596)
+    -- silk_mode: the members assigned before / by silk_Encode when SILK runs; always useDTX (:1399),
+    -- toMono (:1498-1501), LBRR_coded (:1607)
     let sm : SilkCtl := if b.silkRan then b.silkMode else s.silkMode
     let sm := { sm with
                 useDTX := b.useDTX, toMono := b.toMono, lbrrCoded := b.lbrrCoded,
@@ -618,7 +618,7 @@ def encodeStep (O : Oracles) (s : Enc) (x : Inp) : Enc × Out :=
       ({ s1 with
          prevMode := b.prevMode, prevChannels := b.prevChannels, prevFramesize := b.prevFramesize,
                  first := 0, nbNoActivityMsQ1 := b.nbNoActivityMsQ1 }, O.out v x)
-    | _ => ({ s1 with prevChannels := b.streamChannels }, O.out v x)    -- :2123-2125 (SILK consumed the frame)
+    | _ => ({ s1 with prevChannels := b.streamChannels }, O.out v x)    -- :2134-2136 (SILK consumed the frame)
 
 /-- The value an OPUS_GET_* request stores, as a function of the view (opus_encoder.c:2655-3139;
     GET_BITRATE uses user_bitrate_bps / prev_framesize, GET_IN_DTX the gated `useDTX` and the SILK state). -/
